@@ -340,7 +340,7 @@ func (d *randomDriver) step() {
 	e := d.e
 	c := d.clients[d.pick(len(d.clients))]
 	switch k := d.pick(100); {
-	case k < 6 || c.cid == 0:
+	case k < 4 || c.cid == 0:
 		if c.cid != 0 && d.pick(3) == 0 {
 			c.cv++ // the client rebooted
 		}
@@ -480,6 +480,15 @@ func (d *randomDriver) step() {
 		}
 		var r Req
 		lk, have := l.files[lockKey(f.fh, o.key)]
+		if !have {
+			// One lock-owner locking one file through two open-owners
+			// is left to TestFindings (see there).
+			for _, other := range l.files {
+				if other.fh == f.fh {
+					return
+				}
+			}
+		}
 		if have && d.pick(12) != 0 {
 			r = rLock(lk.fh, lk.t, lk.q, l.seq+1, "R", 0, 1)
 		} else {
@@ -600,7 +609,7 @@ func (d *randomDriver) step() {
 			e.do(*cands[d.pick(len(cands))])
 		}
 	default:
-		e.tick([]int{1, 2, 3, 5, 6, 9, 11, 12}[d.pick(8)])
+		e.tick([]int{1, 1, 2, 2, 3, 4, 6, 9, 11}[d.pick(9)])
 	}
 }
 
